@@ -24,6 +24,7 @@ def tagged(c, name, tag, lo=0):
 class C18(Check):
     pid = 'C18'
     validate = True
+    fork_logging = True       # DEBUG logging on/off is a symbolic input of every path
     anchors = [('src/fast_ticc/admm/solver.py', 'compute_lambda_sum'), ('src/fast_ticc/admm/solver.py', 'admm_update_z'),
                ('src/fast_ticc/cluster_label_assignment.py', 'assign_point_cluster_labels'),
                ('src/fast_ticc/graphical_lasso.py', '_zero_small_elements'),
